@@ -684,6 +684,56 @@ func c08MergeSets(ctx *core.Ctx) {
 	}
 }
 
+// c08Corpus: every DSL text of the shared test-data corpus and all its single mutations (each piece deleted; each
+// lexeme of the reduced alphabet inserted at each piece boundary) through the DSL entry points. quick: mutations for
+// every 12th document.
+func c08Corpus(ctx *core.Ctx) {
+	docs := gen.Corpus(RepoRoot())
+	if ctx.Shard == 0 {
+		ctx.Count("corpus_documents", len(docs))
+	}
+	base := 1 << 26
+	for di, d := range docs {
+		if ctx.Expired() {
+			ctx.Cap("wall-clock cap in corpus mutations")
+			return
+		}
+		if ctx.Mine(di) {
+			c08TextLight(ctx, d.Text)
+		}
+		if !ctx.Thorough() && di%12 != 0 {
+			continue
+		}
+		if len(d.Text) > 6000 {
+			continue
+		}
+		gen.CorpusMutations(d.Text, gen.DSLLexemesSmall, func(i int, s string) {
+			if ctx.Mine(base + i) {
+				c08TextLight(ctx, s)
+				ctx.Flag("c08:corpus-mutations")
+			}
+		})
+		base += 1 << 18
+	}
+}
+
+// c08TextLight: the two parser entry points only (the module and JSON wrappers add nothing on long documents).
+func c08TextLight(ctx *core.Ctx, t string) {
+	ctx.Eval(1)
+	for _, e := range dslEntries[:1] {
+		o := c08Call(func() (bool, error) { return e.f(t) })
+		if !c08Judge(ctx, c08Case{Entry: e.name, Text: t}, o) {
+			return
+		}
+		if o.err == nil && cleanedHasUnlexable(t) {
+			ctx.Violation("syntax-error-not-reported", fmt.Sprintf("text %q contains an unlexable character outside comments and was accepted", t), c08Case{Entry: e.name, Text: t}, "error", "accepted")
+			return
+		}
+	}
+	o := c08Call(func() (bool, error) { m, _, e := transformer.TransformModularDSLToProto(t); return m != nil, e })
+	c08Judge(ctx, c08Case{Entry: "TransformModularDSLToProto", Text: t}, o)
+}
+
 func c08Run(ctx *core.Ctx) {
 	if ctx.Shard == 0 {
 		// the step instrumentation must be live
@@ -716,6 +766,7 @@ func c08Run(ctx *core.Ctx) {
 		}
 	}
 	c08MergeSets(ctx)
+	c08Corpus(ctx)
 	c08JSONYAML(ctx)
 	c08Faults(ctx)
 	c08Pump(ctx)
@@ -725,7 +776,7 @@ func init() {
 	core.Register(&core.Check{
 		ID: "C08",
 		Rule: "(a) every string of <= 3 lexemes over a 38-lexeme DSL alphabet (length 3 over a 30-lexeme alphabet in quick) appended to 10 valid document prefixes, through TransformDSLToProto/JSON, TransformModularDSLToProto and as member of 1- and 2-file module sets; accepted texts continue through printer and both graph builders; " +
-			"every string of <= 3/4 tokens over JSON and YAML token alphabets through TransformJSONStringToDSL / TransformModFile; every JSON value of two valid model documents replaced by 9 other JSON values. " +
+			"every DSL text of the repository's shared test-data corpus with all its single mutations (each piece deleted, each of 30 lexemes inserted at each boundary; quick: for every 12th document); every string of <= 3/4 tokens over JSON and YAML token alphabets through TransformJSONStringToDSL / TransformModFile; every JSON value of two valid model documents replaced by 9 other JSON values. " +
 			"(b) fault enumeration on protobufs: every single and every pair (quick: pairs on the small base model) of degradations (pointer nil / empty, slice nil / drop / nil element, map nil / nil value / renamed key, string empty, oneof nil / nil payload, enum 0 / out of range) of three base models (one of them not DSL-expressible: direct assignment in subtract and non-first positions, nested unary operators) through printer (both options), plain graph (+Reversed, GetDOT, GetCycles, PathExists) and weighted builder. " +
 			"(c) pumping: every fragment of <= 2 lexemes (thorough: + every 3rd 3-lexeme fragment) repeated n and 2n times (n = 32 / 64) in 10 insertion contexts, and 4 scaled model families: deterministic step counts from build-time instrumentation, growth exponent log2(S(2n)/S(n)) <= 2.5, horizon 5e7 steps. " +
 			"states = outcome classes, non-trivial = distinct accepted texts and fault names",
@@ -737,7 +788,7 @@ func init() {
 		Technique: "bounded exhaustive enumeration of texts and of protobuf fault combinations with a panic guard and a deterministic step-count horizon",
 		Run:       c08Run,
 		Finish: func(r *core.Result) error {
-			for _, f := range []string{"c08:steps-live", "c08:some-error", "c08:some-result", "c08:unlexable-rejected", "c08:fault-enumeration", "c08:pumped", "c08:json-replacement", "c08:module-file-sets"} {
+			for _, f := range []string{"c08:steps-live", "c08:some-error", "c08:some-result", "c08:unlexable-rejected", "c08:fault-enumeration", "c08:pumped", "c08:json-replacement", "c08:module-file-sets", "c08:corpus-mutations"} {
 				if !r.Flags[f] {
 					return fmt.Errorf("C08: guard %q never exercised", f)
 				}
